@@ -442,10 +442,13 @@ def walk_call(ctx, attempts, t0, first_fetch=True):
             # (api-core's TimeToDeadlineTimeout, which wrap_method applies to a float default_timeout / timeout=)
             #   remaining = T - elapsed; api-core hands out the whole T again once less than 1 s is left (its issue #654)
             elapsed = a["t"] - t0
+            near_1ms = abs(elapsed - 0.001) < 2e-5       # api-core treats "< 1 ms since the first attempt" as 0: a tie
             if elapsed < 0.001:
                 elapsed = 0.0
             left = T - elapsed
             ok_vals = [left] if left >= 1 + 1e-6 else [T] if left < 1 - 1e-6 else [left, T]
+            if near_1ms:
+                ok_vals = ok_vals + [T, T - 0.001]
             if k > 1 and not any(abs(to - v) <= 1e-3 for v in ok_vals):
                 return {"viol": ("later_attempt_deadline", f"attempt {k} carries timeout={to}; {elapsed:.6f}s of the call's {T}s deadline have "
                                  f"passed, so {left:.6f}s are left (api-core: the whole {T}s again only when less than 1 s is left)")}
